@@ -379,6 +379,12 @@ func visitInstr(fr *frame, instr ssa.Instruction) continuation {
 		case array:
 			fr.env[instr] = x[fr.i.ps.index(idx, len(x))]
 		case string:
+			if si, ok := idx.(sym); ok && len(x) > 0 && len(x) <= 256 {
+				// a symbolic index into a constant string (a digit table): the byte is a term over the index
+				// (bounds decided once), not one path per index value
+				fr.env[instr] = fr.i.ps.selectByte(si, x)
+				break
+			}
 			fr.env[instr] = x[fr.i.ps.index(idx, len(x))]
 		case sstr:
 			fr.env[instr] = x.byteVal(x.b[fr.i.ps.index(idx, len(x.b))])
